@@ -52,6 +52,10 @@ type Ptr struct {
 	B   *Buf  // buffer pointer (with Off)
 	Off *Term // byte offset in B
 	Fn  bool  // unused
+	// origin of a slot pointer that addresses a cell of a buffer of non-numeric elements (&strs[i]): lets a SliceHeader whose
+	// Data was taken from such a pointer be turned back into a slice of that buffer
+	OB   *Buf
+	OOff *Term
 }
 
 func (p Ptr) IsNil() bool { return p.S == nil && p.B == nil }
